@@ -96,6 +96,10 @@ def run(ctx):
                    'bounds, no overflowing arithmetic on the converted number', floor=3)
     chk.rule('T9', 'output = NAME without ":" configures NAME with an empty argument: on every path where no separator was '
                    'found and the name is a known output, the last value stored into output_arg is the empty literal', floor=1)
+    chk.rule('T11', 'string options are stored whole: the heap value put into the configuration is strdup() of the option '
+                    'text (or of a pointer into it), never a length-bounded or fixed-buffer copy', floor=3)
+    chk.rule('T12', '`snoopyctl conf` prints each value exactly as the library renders it (a %s of the returned string, '
+                    'which nothing modifies in between)', floor=1)
     chk.rule('T5', 'isolation: a foreign section or unknown name returns from the callback without touching the '
                    'configuration; configuration fields are only written by parsers, defaults, destructor and loader', floor=3)
     chk.rule('T6', 'defaults are total: setDefaults assigns every field of the configuration record', floor=15)
@@ -234,6 +238,9 @@ def run(ctx):
                    how=why)
     # ---- T9: "output = NAME" without ":" means an empty argument --------------------------------------------
     output_without_argument_rule(ctx, prog)
+    # ---- T11: string options keep the whole text; T12: snoopyctl conf prints values unchanged ------------------
+    string_options_stored_whole(ctx, prog, rows)
+    conf_prints_values_unchanged(ctx)
     # ---- T5 --------------------------------------------------------------------------------------
     sec = [c for c in CB.calls('strcmp') if any(strip(a).k == 'StringLiteral' and strip(a).get('s') == 'snoopy' for a in c.ch[1:])]
     ok = len(sec) == 1
@@ -423,6 +430,57 @@ def quote_rule(ctx, prog):
     if n == 0:
         raise AnalysisBroken('no quote-stripping store found in snoopy_ini_parse_stream or its helpers')
     comment_before_trim_rule(ctx, prog)
+    section_forgets_previous_name_rule(ctx, prog)
+
+
+def section_forgets_previous_name_rule(ctx, prog):
+    """continuation lines are attributed to the last name seen IN THE SAME SECTION: once a section header has been
+    read, the remembered name is emptied before a continuation line can be handed to the callback with it"""
+    chk = ctx.chk
+    n = 0
+    for P in _ini_value_functions(prog):
+        hcalls = [c for c in P.calls() if c.get('callee') is None and len(c.ch) >= 5]
+        if not hcalls:
+            continue
+        sec_ids = {(decl_of(arg(c, 1)) or {}).get('id') for c in hcalls} - {None}
+        # the remembered name: third argument of a callback call whose 4th argument is not the parsed value
+        name_ids = {(decl_of(arg(c, 2)) or {}).get('id') for c in hcalls} - {None}
+        decls = {x['id']: x for x in P.local_decls()}
+        prev_ids = {i for i in name_ids if i in decls and ('arrayLen' in decls[i])}
+        if not sec_ids or not prev_ids:
+            continue
+        prev = sorted(prev_ids)[0]
+
+        def is_reset(e):
+            if e.k == 'BinaryOperator' and e.get('op') == '=' and strip(e.ch[1]).get('v') == 0:
+                l = strip(e.ch[0])
+                if l.k == 'UnaryOperator' and l.get('op') == '*' and (decl_of(l.ch[0]) or {}).get('id') == prev:
+                    return True
+                if l.k == 'ArraySubscriptExpr' and (decl_of(l.ch[0]) or {}).get('id') == prev and strip(l.ch[1]).get('v') == 0:
+                    return True
+            return False
+        pos = C.elem_positions(P)
+        for w in P.calls():
+            if w.get('callee') is None or not w.ch[1:]:
+                continue
+            d0 = decl_of(arg(w, 0))
+            if d0 is None or d0['id'] not in sec_ids or w.get('callee') in ('strcmp', 'strlen'):
+                continue
+            ptypes = w.get('calleeParamTypes') or []
+            if ptypes and _const_param(w, 0):
+                continue
+            n += 1
+            el = C.cfg_elem_of(P, w)
+            b, i = pos[el.id]
+            visited, _ = C.reach(P, (b, i + 1), is_reset)
+            stale = [c for c in hcalls if c.id in visited and (decl_of(arg(c, 2)) or {}).get('id') == prev]
+            chk.ob('T5', 'section-header-forgets-the-previous-name', not stale, w.where(), P.name,
+                   'after a new section name has been stored (%s) the callback can still be reached with the name remembered '
+                   'from the previous section (%s): an indented first line of [snoopy] is taken as the continuation of an '
+                   'option of another section, and vice versa' % (render(w)[:50], render(stale[0])[:50] if stale else ''),
+                   how='the remembered name is emptied on every path from the section header to a continuation-line callback')
+    if n == 0:
+        raise AnalysisBroken('no store of the section name found in the INI parser')
 
 
 def comment_before_trim_rule(ctx, prog):
@@ -680,3 +738,102 @@ def output_without_argument_rule(ctx, prog):
     chk.ob('T9', 'output-without-argument-gets-empty-argument', bad is None and n > 0, (bad[1] if bad else sep).where(), PV.name,
            'for "output = NAME" (no ":") with a known NAME: %s' % (bad[0] if bad else 'no path found'),
            how='%d path(s) under "no separator found" and "known output name" all end with output_arg = ""' % n)
+
+
+def string_options_stored_whole(ctx, prog, rows):
+    from engine.dataflow import PtrTaint
+    chk = ctx.chk
+    n = 0
+    for name, ty, fn, node in rows[:-1]:
+        if ty != common.macro_value(ctx.repo, 'SNOOPY_CONFIGFILE_OPTION_TYPE_STRING', 'src/configfile.h') or len(fn) != 2 or fn[0] is None:
+            continue
+        PV = prog.func(fn[0])
+        if PV is None or not PV.params:
+            continue
+        pt = PtrTaint(PV, lambda x: False, {PV.params[0]['id']})
+        # a private whole copy of the text (x = strdup(text)) counts as the text: pointers into it too
+        from engine.dataflow import def_exprs
+        grown = True
+        while grown:
+            grown = False
+            for x in PV.local_decls():
+                if x['id'] in pt.derived:
+                    continue
+                defs = [strip(d) for d in def_exprs(PV, x['id'])]
+                defs = [d for d in defs if not (d.get('null') or d.get('v') == 0)]
+                if defs and all(d.k == 'CallExpr' and d.get('callee') in ('strdup', '__strdup') and pt.is_derived(d.ch[1]) for d in defs):
+                    pt.derived.add(x['id'])
+                    # pointers computed from the copy
+                    pt2 = PtrTaint(PV, lambda q: False, set(pt.derived))
+                    pt.derived |= pt2.derived
+                    grown = True
+        stores = []
+        for st in PV.body.walk():
+            if st.k == 'BinaryOperator' and st.get('op') == '=' and strip(st.ch[0]).k == 'MemberExpr':
+                r = strip(st.ch[1])
+                if r is not None and r.k == 'CallExpr':
+                    stores.append((st, r))
+        for st, r in stores:
+            n += 1
+            fld = strip(st.ch[0]).get('member')
+            ok = r.get('callee') in ('strdup', '__strdup') and len(r.ch) > 1 and pt.is_derived(r.ch[1])
+            why = ''
+            if not ok:
+                if r.get('callee') in ('strndup', '__strndup'):
+                    why = 'a copy bounded to %s bytes' % render(arg(r, 1))[:40]
+                elif r.get('callee') in ('strdup', '__strdup'):
+                    why = 'a copy of %s, which is not the option text (a fixed-size intermediate buffer cuts long values)' % render(arg(r, 0))[:40]
+                else:
+                    why = 'the result of %s' % render(r)[:50]
+            chk.ob('T11', 'stored-whole[%s:%s]' % (name, fld), ok, st.where(), PV.name,
+                   'option "%s": %s is given %s: a value longer than that loses its tail (a cut format or template then '
+                   'ends inside a tag)' % (name, fld, why),
+                   how='strdup of the option text')
+    if n == 0:
+        raise AnalysisBroken('no heap store found in the string option parsers')
+
+
+def conf_prints_values_unchanged(ctx):
+    from engine import fmt
+    from engine.dataflow import PtrTaint
+    chk = ctx.chk
+    cprog = ctx.program(facts.AS_CONFIGURED, 'cli')
+    F = cprog.func('snoopy_cli_action_conf')
+    if F is None:
+        raise AnalysisBroken('snoopy_cli_action_conf not found in the CLI build')
+    # the value: result of the call through the getOptionValueAsString pointer
+    holders = []
+    for c in F.calls():
+        if c.get('callee') is None and 'getOptionValueAsString' in render(c.ch[0]):
+            h = common.holder(F, c)
+            if h is not None:
+                holders.append((c, h))
+    if not holders:
+        raise AnalysisBroken('snoopyctl conf does not obtain option values through getOptionValueAsString')
+    for c, h in holders:
+        pt = PtrTaint(F, lambda x: False, {h})
+        modified = list(pt.stores())
+        printed = False
+        for call, i, a in pt.pointer_args():
+            name = call.get('callee')
+            if name in ('free',):
+                continue
+            np = call.get('calleeNumParams')
+            if name in fmt.PRINTF_FAMILY and np is not None and i >= np:
+                for an, d, role in (fmt.variadic_bindings(call) or []):
+                    if an is a and role == 'value' and d['conv'] == 's' and not d.get('prec'):
+                        printed = True
+                continue
+            ptypes = call.get('calleeParamTypes') or []
+            if i < len(ptypes) and not _const_param(call, i):
+                modified.append(call)
+            elif name not in fmt.PRINTF_FAMILY:
+                # handed to another function first: what is printed may be something derived from it
+                t = cprog.func(name, F.tu) if name else None
+                if t is not None:
+                    modified.append(call)
+        chk.ob('T12', 'conf-prints-the-value-unchanged', printed and not modified, (modified[0] if modified else c).where(), F.name,
+               'the value obtained from the library is %s before it is printed: what `snoopyctl conf` shows, written back into '
+               'snoopy.ini, no longer gives the same setting (TAB and every non-ASCII byte are "unprintable" in the C locale)' % (
+                   ('changed or filtered by %s' % render(modified[0])[:60]) if modified else 'not printed with a plain %s'),
+               how='printf("%s") of the string returned by getOptionValueAsString; no store through it, no helper in between')
